@@ -8,6 +8,7 @@ package main
 // (the property's replay oracle): re-parse of -o / json() output must equal the
 // re-parse of the input (bit-exact numbers), or the tree the generator built; a
 // cyclic / inexpressible value must give a runtime error (json()) or ERR (-o).
+// deep-nesting (at the end of the file): documents and values nested up to 10 000 levels.
 
 import (
 	"fmt"
@@ -819,5 +820,327 @@ func init() {
 		Name: "o-through-binary", Prop: "C04",
 		Rule: "documents whose string values AND keys are built from %, %d, %s, %%, %!, %[1]d, %!s(MISSING), backslashes, quotes, control characters, non-ASCII, shell-ish text and long runs (200 B - 70 kB), in every JSON escape form, plus the rich documents of o-roundtrip, run through the REAL BINARY with -o - and -o FILE (input as a file or on stdin; FILE fresh, or already existing and longer / one byte longer / shorter / as long as the JSON to be written / empty, or the input file itself) and a program that does not modify them; one Group per document with the library run first (compared with the model, Go re-parse oracle): the binary's answer is compared with the model's answer to the same command line (exit, stdout, stderr present, -o file), its JSON must be byte for byte GetRootJson's and must re-parse with encoding/json to the last input value; every fourth document goes through print / printf / json() instead (stdout of the binary = stdout of the library = the model's)",
 		Gen:  c04ThroughBinary,
+	})
+}
+
+// ---- deep-nesting ---------------------------------------------------------------------
+//
+// "Whatever can be read can be written": encoding/json reads documents nested up to 10 000
+// levels, its encoder has no limit of its own for acyclic values and its indenter stops at
+// 10 000 too, and the evaluator builds values of any depth. So every document / value nested
+// up to 10 000 levels must come out of -o and json() as JSON that parses back to it. The
+// indented text of a document nested d levels is about 2*d*d bytes (200 MB at 10 000): from
+// 2 000 levels on the worker answers with the compact form of the text plus its length and
+// whether it is exactly the canonical indentation (run flag c, cli flag z), and the model is
+// asked up to 1 003 levels (and twice at 2 000).
+
+// c04DeepDoc: JSON text nested exactly d levels (d >= 1) of the given shape around the leaf
+// ("" = the innermost container is empty).
+func c04DeepDoc(shape string, d int, leaf string) string {
+	var open, shut strings.Builder
+	for k := 0; k < d; k++ {
+		last := k == d-1
+		kind := shape
+		if shape == "mixed" {
+			kind = []string{"obj", "arr"}[k%2]
+		}
+		switch kind {
+		case "arr":
+			open.WriteString("[")
+			shut.WriteString("]")
+		case "obj":
+			if last && leaf == "" {
+				open.WriteString("{")
+			} else {
+				open.WriteString(`{"k":`)
+			}
+			shut.WriteString("}")
+		case "siblings":
+			// every level has other members before and after the nested one
+			if last && leaf == "" {
+				open.WriteString("[")
+				shut.WriteString("]")
+			} else if k%2 == 0 {
+				open.WriteString(`[0,`)
+				shut.WriteString(`]"e",`) // reversed below
+			} else {
+				open.WriteString(`{"a":[],"k":`)
+				shut.WriteString(`}1:"z",`)
+			}
+		}
+	}
+	rs := []byte(shut.String())
+	for i, j := 0, len(rs)-1; i < j; i, j = i+1, j-1 {
+		rs[i], rs[j] = rs[j], rs[i]
+	}
+	return open.String() + leaf + string(rs)
+}
+
+// c04Wrap: the tree of `inner` wrapped n more times the way the loop programs below do.
+func c04Wrap(inner interface{}, n int, shape string) interface{} {
+	v := inner
+	for k := 0; k < n; k++ {
+		switch shape {
+		case "arr":
+			v = []interface{}{v}
+		case "obj":
+			v = map[string]interface{}{"k": v}
+		default: // mixed: two levels per round
+			v = []interface{}{map[string]interface{}{"k": v}}
+		}
+	}
+	return v
+}
+
+// c04DeepOracle: the answer's field (json / out / ofile), given in compact form by the worker,
+// is canonical indentation of a text that parses to want.
+func c04DeepOracle(field string, want interface{}, cli bool) func(Resp) string {
+	return func(i Resp) string {
+		if cli {
+			if w := c04CliBasic(i); w != "" {
+				return w
+			}
+			if i["exit"] != "0" {
+				return "the binary failed (exit " + i["exit"] + ") on a well-formed document nested at most 10 000 levels: " + short(string(i.Bytes("stderr")))
+			}
+		} else if i["class"] != "ok" {
+			return "class=" + i["class"] + " msg=" + i["msg"] + " on a well-formed document / an acyclic value nested at most 10 000 levels"
+		}
+		if i[field] == "ERR" {
+			return "writing the JSON failed: " + field + "=ERR"
+		}
+		if i[field+"canon"] == "" {
+			return "the " + field + " text is not one JSON document: " + short(string(i.Bytes(field)))
+		}
+		if i[field+"canon"] != "1" {
+			return "the " + field + " text is JSON but not the canonical two-space indentation (raw length " + i[field+"raw"] + ")"
+		}
+		got, err := vgDecodeOne(i.Bytes(field))
+		if err != nil {
+			return "the " + field + " text does not parse with Go's decoder: " + err.Error()
+		}
+		if !vgEqual(got, want) {
+			return "the " + field + " text parses to a different value (compact form: " + short(string(i.Bytes(field))) + ")"
+		}
+		return ""
+	}
+}
+
+func c04DeepNesting(r *rand.Rand, tier string, emit func(Case)) {
+	depths := []int{500, 999, 1000, 1001, 1002, 1003, 1500, 2000, 3000, 5000, 9999, 10000}
+	if tier == "thorough" {
+		for k := 0; k < 12; k++ {
+			depths = append(depths, pick(r, []int{2 + r.Intn(998), 1000 + r.Intn(30), 1004 + r.Intn(3000), 4000 + r.Intn(5999)}))
+		}
+	}
+	shapes := []string{"arr", "obj", "mixed", "siblings"}
+	leaves := []string{"", `"x"`, "null", "0", "", "[]", "{}"}
+	haveBin := os.Getenv("JQAWK_BIN") != ""
+	routes := []string{"o", "json", "sel", "built", "built-o", "bin-file", "bin-dash", "sel-wrap"}
+	n := 0
+	model2000 := 0
+	slowBudget := tierN(tier, 4, 60)
+	for di, d := range depths {
+		for si, shape := range shapes {
+			if shape == "siblings" && d >= 5000 && (tier != "thorough" || d >= 9999) {
+				continue // twice the text of the other shapes: 400 MB at 10 000 levels
+			}
+			// quick: two routes per (depth, shape), rotating; thorough: all of them up to 3 000 levels, three beyond
+			var todo []string
+			switch {
+			case tier == "thorough" && d <= 3000:
+				todo = routes
+			case tier == "thorough":
+				todo = []string{routes[(di+si)%len(routes)], routes[(di+si+3)%len(routes)], routes[(di+si+5)%len(routes)]}
+			case d >= 5000:
+				todo = []string{routes[(di*3+si)%len(routes)]}
+			default:
+				todo = []string{routes[(di+si)%len(routes)], routes[(di+si+3)%len(routes)]}
+			}
+			for _, route := range todo {
+				if route == "bin-dash" && d >= 9999 && tier != "thorough" {
+					route = "bin-file" // 200 MB through the stdout pipe take 5 s
+				}
+				n++
+				leaf := leaves[(n+si)%len(leaves)]
+				if leaf == "[]" || leaf == "{}" {
+					// the leaf is a container itself: one level less around it
+					if d < 2 {
+						leaf = ""
+					}
+				}
+				dd := d
+				if leaf == "[]" || leaf == "{}" {
+					dd = d - 1
+				}
+				// summarised answers (implementation only) from 2 000 levels on; the model is asked below
+				// that -- but it renders nested OBJECTS in time cubic in the depth (6 s at 1 000 levels,
+				// 20 s at 1 500): beyond 600 levels only arrays and a few object-shaped cases go to it
+				arrOnly := shape == "arr" && route != "sel-wrap"
+				heavy := d >= 2000 || (d > 1003 && !arrOnly)
+				if !heavy && d > 600 && !arrOnly {
+					if slowBudget > 0 {
+						slowBudget--
+					} else {
+						heavy = true
+					}
+				}
+				if d == 2000 && model2000 < 2 && arrOnly && (route == "o" || route == "json") {
+					heavy = false
+					model2000++
+				}
+				flag := " j"
+				if heavy {
+					flag = " c"
+				}
+				withFlag := func(req string) string { return strings.TrimSuffix(strings.TrimSuffix(req, " -"), " j") + flag }
+				id := fmt.Sprintf("deep-%d-%s-%s-%d", d, shape, route, n)
+				meta := func(prog, what string) map[string]string {
+					return metaProg(prog, "document", fmt.Sprintf("%s nested %d levels around the leaf %q", shape, d, leaf), "route", what, "answer", map[bool]string{true: "compact form + length + canonical-indentation check (worker side)", false: "full text, compared with the model"}[heavy])
+				}
+				jsonOracle := func(field string, want interface{}, cli bool) func(Resp) string {
+					if heavy {
+						return c04DeepOracle(field, want, cli)
+					}
+					if cli {
+						return c04CliJSONOracle(want, field == "ofile", "")
+					}
+					if field == "out" {
+						return c04OutOracle([]interface{}{want})
+					}
+					return c04RootOracle(want)
+				}
+				nt := func(i Resp) bool {
+					return (i["class"] == "ok" && (i["json"] != "-" || i["out"] != "-")) || i["exit"] == "0"
+				}
+				switch route {
+				case "o":
+					doc := c04DeepDoc(shape, dd, leaf)
+					want, err := vgDecodeOne([]byte(doc))
+					if err != nil {
+						panic("c04DeepNesting: " + err.Error())
+					}
+					prog := pick(r, []string{"{}", "{ x = $ }", "BEGINFILE { z = $ }", "END { y = 2 }", "{ n = n + 1; last = $ }"})
+					emit(Case{ID: id, Req: withFlag(RunReq(prog, nil, vgDocFile(doc), true)), Fields: c04Fields, ImplOnly: heavy, Meta: meta(prog, "-o of the unmodified document (library)"),
+						Oracle: jsonOracle("json", want, false), NonTrivial: nt})
+				case "json":
+					doc := c04DeepDoc(shape, dd, leaf)
+					want, _ := vgDecodeOne([]byte(doc))
+					prog := pick(r, []string{"BEGINFILE { print json($) }", "BEGINFILE { v = $; print json(v) }", "ENDFILE { print json($) }"})
+					emit(Case{ID: id, Req: withFlag(RunReq(prog, nil, vgDocFile(doc), false)), Fields: []string{"class", "out"}, ImplOnly: heavy, Meta: meta(prog, "json() of the whole document, printed"),
+						Oracle: jsonOracle("out", want, false), NonTrivial: nt})
+				case "sel", "sel-wrap":
+					// the selected sub-document is the deep one; the document around it adds two levels
+					// (and a root built around it one or two more)
+					room := 9998
+					if route == "sel-wrap" {
+						room = 9996
+					}
+					de := dd
+					if d > room {
+						de = dd - (d - room)
+					}
+					inner := c04DeepDoc(shape, de, leaf)
+					doc := `{"top": {"other": [1, 2], "deep": ` + inner + `}, "z": []}`
+					want, _ := vgDecodeOne([]byte(inner))
+					sels := []string{"$.top.deep"}
+					if route == "sel-wrap" {
+						// a selector that BUILDS the root around the sub-document
+						if n%2 == 0 {
+							sels = []string{"[$.top.deep]"}
+							want = []interface{}{want}
+						} else {
+							sels = []string{"$.z", "{w: [$.top.deep]}"}
+							want = map[string]interface{}{"w": []interface{}{want}}
+						}
+					}
+					prog := pick(r, []string{"{}", "{ x = $ }", "BEGINFILE { z = $ }"})
+					emit(Case{ID: id, Req: withFlag(RunReq(prog, sels, vgDocFile(doc), true)), Fields: c04Fields, ImplOnly: heavy, Meta: meta(prog, "-o of the sub-document selected with -r "+strings.Join(sels, " -r ")),
+						Oracle: jsonOracle("json", want, false), NonTrivial: nt})
+				case "built", "built-o":
+					// the program builds the value: a loop wraps a seed d-1 (mixed: about d/2) times
+					lshape := shape
+					if lshape == "siblings" {
+						lshape = "mixed"
+					}
+					rounds := d - 1
+					if lshape == "mixed" {
+						rounds = (d - 1) / 2
+					}
+					seedExpr, seedTree := "[]", interface{}([]interface{}{})
+					if n%3 == 1 {
+						seedExpr, seedTree = "{}", map[string]interface{}{}
+					} else if n%3 == 2 {
+						seedExpr, seedTree = "['x', null]", []interface{}{"x", nil}
+					}
+					step := map[string]string{"arr": "a = [a]", "obj": "a = {k: a}", "mixed": "a = [{k: a}]"}[lshape]
+					want := c04Wrap(seedTree, rounds, lshape)
+					build := fmt.Sprintf("a = %s; for (i = 0; i < %d; i++) %s", seedExpr, rounds, step)
+					if route == "built" {
+						prog := "BEGIN { " + build + "; print json(a) }"
+						emit(Case{ID: id, Req: withFlag(RunReq(prog, nil, nil, false)), Fields: []string{"class", "out"}, ImplOnly: heavy, Meta: meta(prog, "json() of a value the program built"),
+							Oracle: jsonOracle("out", want, false), NonTrivial: nt})
+					} else {
+						if rounds > 9998 {
+							continue
+						}
+						prog := "{ " + build + "; $.v = a }"
+						wantRoot := map[string]interface{}{"d": 1.0, "v": want}
+						emit(Case{ID: id, Req: withFlag(RunReq(prog, nil, vgDocFile(`{"d": 1}`), true)), Fields: c04Fields, ImplOnly: heavy, Meta: meta(prog, "-o of a document into which the program stored a value it built"),
+							Oracle: jsonOracle("json", wantRoot, false), NonTrivial: nt})
+					}
+				case "bin-file", "bin-dash":
+					if !haveBin {
+						continue
+					}
+					doc := c04DeepDoc(shape, dd, leaf)
+					want, _ := vgDecodeOne([]byte(doc))
+					prog := pick(r, []string{"{}", "", "{ x = $ }"})
+					useStdin := n%3 == 0
+					var disk []CliFile
+					var names []string
+					var stdin []byte
+					if useStdin {
+						stdin = []byte(doc)
+					} else {
+						disk, names = []CliFile{{Name: "deep.json", Data: []byte(doc)}}, []string{"deep.json"}
+					}
+					o, ofile, field := "-", "", "out"
+					if route == "bin-file" {
+						o, ofile, field = "out.json", "out.json", "ofile"
+					}
+					argv := append([]string{"-o", o, prog}, names...)
+					req := CliReq(argv, stdin, useStdin, disk, ofile)
+					if heavy {
+						if ofile == "" {
+							req = strings.TrimSuffix(req, "-") + "z,t=60000"
+						} else {
+							req += ",z,t=60000"
+						}
+					}
+					emit(Case{ID: id, Req: req, Fields: c04CliFields, ImplOnly: heavy, Meta: meta(prog, "the REAL BINARY: "+strings.Join(argv[:2], " ")+map[bool]string{true: ", input on stdin", false: ", input in a file"}[useStdin]),
+						Oracle: jsonOracle(field, want, true), NonTrivial: nt})
+				}
+			}
+		}
+	}
+	// one level more than the reader takes: a JSON input error, not a crash
+	for _, shape := range []string{"arr", "obj"} {
+		doc := c04DeepDoc(shape, 10001, "")
+		emit(Case{ID: "deep-10001-" + shape, Req: RunReq("{}", nil, vgDocFile(doc), true), ImplOnly: true, Meta: metaProg("{}", "document", shape+" nested 10 001 levels: more than encoding/json reads"),
+			Oracle: func(i Resp) string {
+				if i["class"] != "json" {
+					return "a document nested 10 001 levels is beyond what the reader accepts: expected a JSON input error, got " + i["class"]
+				}
+				return ""
+			}, NonTrivial: func(i Resp) bool { return i["class"] == "json" }})
+	}
+}
+
+func init() {
+	register(Family{
+		Name: "deep-nesting", Prop: "C04",
+		Rule: "documents and values nested 500 / 999 / 1000 / 1001 / 1002 / 1003 / 1500 / 2000 / 3000 / 5000 / 9999 / 10 000 levels (thorough: also random depths) -- arrays, objects, alternating, with sibling members at every level; innermost container empty or holding a string / null / a number / an empty container -- written back through every route: -o of the unmodified document, json() of the whole document, -o of a sub-document selected with -r and of a root that a selector builds around it, json() of a value the program builds by wrapping a seed in a loop, -o of a document into which such a value was stored, and the REAL BINARY with -o FILE and -o - (input file or stdin). Oracle: the text parses with encoding/json to the input value / the tree the generator built (encoding/json reads 10 000 levels; its encoder has no limit for acyclic values). Up to 1 003 levels (and two cases at 2 000) the full text is compared with the model; from 2 000 levels on (the indented text grows with the square of the depth: 8 MB at 2 000, 200 MB at 10 000) the worker answers with the compact form, the length and whether the text is exactly the canonical two-space indentation (run flag c, cli flag z). A document of 10 001 levels must be a JSON input error",
+		Gen:  c04DeepNesting,
 	})
 }
